@@ -37,6 +37,18 @@ def parseExtras (s : Bytes) : Outcome (Bytes × Bytes) :=
         pure (trim inner, rest)
     else .ok ([], s)
 
+/-- `end := strings.IndexByte(s, b); if end < 0 { end = len(s) }`. -/
+def indexByteOrLen (s : Bytes) (b : UInt8) : Nat :=
+  match indexByte s b with
+  | some e => e
+  | none => s.length
+
+/-- Lines 180-183: "May be parenthesized, we can remove those." -/
+def stripParens (c0 : Bytes) : Outcome Bytes :=
+  if hasPrefix c0 [40] && hasSuffix c0 [41] then          -- "(" … ")"
+    slice "metadata.go:182 d.Constraint[1:len-1]" c0 1 (c0.length - 1)
+  else .ok c0
+
 /-- Lines 173-185: the optional constraint. Returns `(d.Constraint, s)`. -/
 def parseConstraint (s : Bytes) : Outcome (Bytes × Bytes) :=
   match s with
@@ -44,17 +56,26 @@ def parseConstraint (s : Bytes) : Outcome (Bytes × Bytes) :=
   | c :: _ =>
     if c.toNat == 59 then .ok ([], s)                       -- s[0] == ';'
     else do
-      let «end» := match indexByte s 59 with                -- IndexByte(s, ';')
-        | some e => e
-        | none => s.length                                  -- end < 0 ⇒ end = len(s)
+      let «end» := indexByteOrLen s 59                      -- all of the remainder if no ';'
       let head ← slice "metadata.go:179 s[:end]" s 0 «end»
-      let c0 := trim head
-      let cons ←
-        if hasPrefix c0 [40] && hasSuffix c0 [41] then      -- "(" … ")"
-          slice "metadata.go:182 d.Constraint[1:len-1]" c0 1 (c0.length - 1)
-        else pure c0
+      let cons ← stripParens (trim head)
       let rest ← sliceFrom "metadata.go:184 s[end:]" s «end»
       pure (cons, rest)
+
+/-- Lines 186-195: "Anything left must be a condition starting with ';'". -/
+def parseEnvironment (d : Dependency) (s : Bytes) : Outcome Dependency :=
+  match s with
+  | [] => .ok d
+  | c :: rest =>
+    if c.toNat != 59 then .err                              -- len(s) > 0 && s[0] != ';'
+    else .ok { d with environment := trim rest }            -- strings.Trim(s[1:], whitespace)
+
+/-- Lines 161-195, after `nameEnd` is known: `nm = s[:nameEnd]`, `tl = s[nameEnd:]`. -/
+def parseAfterName (nm tl : Bytes) : Outcome Dependency := do
+  let s := trimLeft tl
+  let (extras, s) ← parseExtras s
+  let (cons, s) ← parseConstraint s
+  parseEnvironment { name := canonPackageName nm, extras := extras, constraint := cons } s
 
 /-- `pypi.ParseDependency`. -/
 def parseDependency (v : Bytes) : Outcome Dependency :=
@@ -66,14 +87,6 @@ def parseDependency (v : Bytes) : Outcome Dependency :=
   | some nameEnd => do
     let nm ← slice "metadata.go:161 s[:nameEnd]" s 0 nameEnd
     let tl ← sliceFrom "metadata.go:162 s[nameEnd:]" s nameEnd
-    let s := trimLeft tl
-    let (extras, s) ← parseExtras s
-    let (cons, s) ← parseConstraint s
-    match s with
-    | [] => pure { name := canonPackageName nm, extras := extras, constraint := cons }
-    | c :: rest =>
-      if c.toNat != 59 then .err                            -- len(s) > 0 && s[0] != ';'
-      else pure { name := canonPackageName nm, extras := extras, constraint := cons,
-                  environment := trim rest }                -- strings.Trim(s[1:], whitespace)
+    parseAfterName nm tl
 
 end DepsDev.Pypi
